@@ -728,6 +728,14 @@ func (se *symExec) execAssign(x *ast.AssignStmt, st *sstate) []*sstate {
 				}
 				continue
 			}
+			if se.emitMode && len(out) == 1 && len(cur) == 1 && cur[0].vs[i].kind == vUnknown && strings.HasSuffix(cur[0].vs[i].desc, "[*]") {
+				// `name := code.Freevars[i]` inside `for i := range code.Freevars`: the loop's element under a name of
+				// its own is shown as the element, as the value variable of the range statement would be
+				if _, taken := se.params[obj]; !taken {
+					se.params[obj] = cur[0].vs[i].desc
+				}
+				continue
+			}
 			if !isPurePath(x.Rhs[i]) {
 				// `last := is[len(is)-1]`: an element or field selected from values that are never assigned
 				// again is that selection under another name
